@@ -123,7 +123,7 @@ class Lock:
 
 def build_harness(profile="debug"):
     """Build vharness against the CURRENT /repo working tree (hooks on). Returns the binary path."""
-    with Lock("cargo-" + profile):
+    with Lock("cargo-%s-%s" % (profile, hashlib.sha1(HARNESS.encode()).hexdigest()[:8])):
         lock_src = os.path.join(REPO, "Cargo.lock")
         lock_dst = os.path.join(HARNESS, "Cargo.lock")
         if not os.path.exists(lock_dst):
@@ -311,7 +311,10 @@ def coq_eval(requires, type_str, run_expr, case_terms, shard=400, tag="eval", ex
             f.write(requires + "\n")
             f.write("Set Printing Width 1000000.\nSet Printing Depth 100000000.\n")
             f.write(extra_defs + "\n")
-            f.write("Definition cases : list (%s) := [\n  %s\n].\n" % (type_str, ";\n  ".join(sh_cases)))
+            # one Definition per case: a single huge list literal elaborates superlinearly in coqc
+            for j, t in enumerate(sh_cases):
+                f.write("Definition c_%d : %s := %s.\n" % (j, type_str, t))
+            f.write("Definition cases : list (%s) := [%s].\n" % (type_str, "; ".join("c_%d" % j for j in range(len(sh_cases)))))
             f.write("Eval vm_compute in (map (%s) cases).\n" % run_expr)
         files.append(p)
 
